@@ -9,6 +9,7 @@ import (
 	"path/filepath"
 	"sort"
 	"strings"
+	"sync"
 
 	"golang.org/x/tools/go/packages"
 	"golang.org/x/tools/go/ssa"
@@ -33,6 +34,7 @@ type Engine struct {
 	sentinelErrs map[*ssa.Global]bool
 	globalInit   map[*ssa.Global]ssa.Value
 	LoadSeconds  float64
+	mu           sync.Mutex
 	DynCallHook  DynHook
 	Nondet       map[string]bool
 }
@@ -251,6 +253,8 @@ func (e *Engine) loadSpecs() error {
 }
 
 func (e *Engine) source(file string) []byte {
+	e.mu.Lock()
+	defer e.mu.Unlock()
 	if b, ok := e.srcCache[file]; ok {
 		return b
 	}
